@@ -17,7 +17,7 @@ import (
 
 func init() {
 	props["C11"] = &propDef{
-		rule: "cases = (a) examples/segmenter binary on generated progressive files (harness/progfile.go and c10_gen.go: one video + optional audio in either order, and 1..3-track files for the multiplexed mode) and the repository's progressive files x modes {one file per track, lazy, multiplexed, multiplexed+lazy} x segment durations {1 ms, around every sync point, random, longer than the file}; (b) examples/resegmenter binary on fragmented single-track files built with the library API (1..5 segments x 1..4 fragments, one or two sample runs per fragment, with/without styp, trun optimisation on/off, values taken from trex defaults, zero/non-zero start time) and on the segmenter's own output x new durations in ticks {1, around sync samples' presentation times, random, beyond the end}; (c) mp4.MediaSegment.Fragmentify through the API on the same segments x fragment durations x {trex, nil}; (d) examples/combine-segs binary on pairs of single-track single-fragment segments (library-built, four fifths carrying all values explicitly and one fifth possibly relying on trex defaults, and the segmenter's per-track output); outputs are expanded with the library's Fragment.GetFullSamples per fragment with the output init's trex boxes and the concatenated per-track sequence is compared with the input's (count, bytes, durations, flags, composition offsets, decode times; first sample of every segment is a sync sample of the reference track); non-trivial = distinct case in which the tool/API succeeded",
+		rule: "cases = (a) examples/segmenter binary on generated progressive files (harness/progfile.go and c10_gen.go: one video + optional audio in either order, and 1..3-track files for the multiplexed mode) and the repository's progressive files x modes {one file per track, lazy, multiplexed, multiplexed+lazy} x segment durations {1 ms, around every sync point, random, longer than the file}; (b) examples/resegmenter binary on fragmented single-track files built with the library API (1..5 segments x 1..4 fragments, one or two sample runs per fragment, with/without styp, trun optimisation on/off, values taken from trex defaults, zero/non-zero start time incl. timelines shifted so that a fragment-first or arbitrary sample begins at 2^32-1, 2^32, 2^32+1 or near it, and 64-bit start times) and on the segmenter's own output x new durations in ticks {1, around sync samples' presentation times, random, beyond the end}; (c) mp4.MediaSegment.Fragmentify through the API on the same segments x fragment durations x {trex, nil}; (d) examples/combine-segs binary on pairs of single-track single-fragment segments (library-built, four fifths carrying all values explicitly and one fifth possibly relying on trex defaults, and the segmenter's per-track output); outputs are expanded with the library's Fragment.GetFullSamples per fragment with the output init's trex boxes and the concatenated per-track sequence is compared with the input's (count, bytes, durations, flags, composition offsets, decode times; first sample of every segment is a sync sample of the reference track); non-trivial = distinct case in which the tool/API succeeded",
 		gen:  genC11,
 		exec: execC11,
 	}
@@ -358,8 +358,47 @@ func genFFTrack(r *rand.Rand, media string, oneFrag bool, keepTrex ...bool) *ffT
 	}
 	t.truth = tt
 	t.multiTrun = !oneFrag && r.Intn(4) == 0
+	// late timelines (long-running or epoch-based streams): the whole track is shifted so that one of its samples -
+	// the first of an input fragment or any other one, which the tools may turn into the first of an output
+	// segment/fragment - begins at 2^32-1, 2^32 or 2^32+1 ticks or within a few sample durations of 2^32 (where the
+	// 32-bit form of the decode time ends), or the track starts somewhere in the 64-bit range
+	switch r.Intn(8) {
+	case 0, 1:
+		k := r.Intn(len(tt.samples))
+		if r.Intn(2) == 0 { // first sample of a randomly chosen input fragment
+			var firsts []int
+			n := 0
+			for _, seg := range t.layout {
+				for _, ns := range seg {
+					firsts = append(firsts, n)
+					n += ns
+				}
+			}
+			k = firsts[r.Intn(len(firsts))]
+		}
+		at := uint64(1) << 32
+		switch r.Intn(6) {
+		case 0:
+			at--
+		case 1:
+			at++
+		case 2:
+			at = at - uint64(base) + uint64(r.Intn(int(2*base)+1))
+		}
+		t.shiftStart(at - (tt.samples[k].dec - t.start))
+	case 2:
+		t.shiftStart(uint64(r.Int63n(1 << 46)))
+	}
 	t.build()
 	return t
+}
+
+// shiftStart moves the track's timeline so that its first sample is decoded at newStart
+func (t *ffTrack) shiftStart(newStart uint64) {
+	for i := range t.truth.samples {
+		t.truth.samples[i].dec = t.truth.samples[i].dec - t.start + newStart
+	}
+	t.start = newStart
 }
 
 func (t *ffTrack) build() {
@@ -473,6 +512,17 @@ func (t *ffTrack) describe(c *Ctx, what string) {
 	}
 	c.Count(fmt.Sprintf("%s input: %s segs<=%d frags<=%d samples<=%d", what, t.media, bucket(len(t.layout), []int{1, 2, 5}), bucket(nfr, []int{1, 4, 20}), bucket(len(t.truth.samples), []int{1, 3, 10, 30, 100, 1000})))
 	c.Count(fmt.Sprintf("%s input: styp=%v optimize=%v trexDefaults=%v startZero=%v", what, t.styp, t.optimize && !t.reliesOnTrex, t.reliesOnTrex, t.start == 0))
+	at32 := "none"
+	for _, sm := range t.truth.samples {
+		if sm.dec == 1<<32 {
+			at32 = "exactly"
+			break
+		}
+		if sm.dec+1 == 1<<32 || sm.dec == 1<<32+1 {
+			at32 = "off by one"
+		}
+	}
+	c.Count(fmt.Sprintf("%s input: start<2^%d, sample beginning at 2^32: %s", what, bucket(bitsLen(t.start), []int{0, 16, 32, 33, 64}), at32))
 }
 
 func ffFromSpec(f []string) (*ffTrack, int, error) {
@@ -1449,4 +1499,12 @@ func genC11(c *Ctx) {
 			}
 		}
 	}
+}
+
+func bitsLen(v uint64) int {
+	n := 0
+	for ; v != 0; v >>= 1 {
+		n++
+	}
+	return n
 }
